@@ -80,8 +80,10 @@ def jacobian_rank(sc, descs):
                 for j in range(p):
                     if i in ports and j in ports:
                         m[i, j] = True                 # cell of the standard proper
-                    elif leak_t and i != j and not (i in ports and j in ports):
-                        m[i, j] = True                 # no signal path: pure leakage measurement
+                    elif leak_t and i != j and ((i in ports) != (j in ports)):
+                        # no signal path: pure leakage measurement.  (Between two ports that are both outside the standard the
+                        # library knows nothing and takes no sample: Model/Leakage.lean, tie in C01.)
+                        m[i, j] = True
         masks.append(m[:sc.rows, :sc.cols])
 
     def meas(b):
@@ -308,7 +310,7 @@ def rect_histories(chk, exe, rng, reps):
                         # path (vnacal_new(3)); a cell only ever seen through connected standards is silently taken as leakage-free
                         for a_ in range(r):
                             for b_ in range(c):
-                                if a_ != b_ and not any(not (a_ in ps_ and b_ in ps_) for ps_ in
+                                if a_ != b_ and not any(((a_ in ps_) != (b_ in ps_)) for ps_ in
                                                         [([d_[1] - 1] if d_[0] == 'reflect' else [d_[1] - 1, d_[2] - 1]) for d_ in descs]):
                                     det = False
                     path = None
